@@ -97,6 +97,16 @@ def family_shapes(tier, seed):
                 continue
             src = "\n".join(fns[i] for i in perm)
             out.append(dict(src=src, name=f"functions {perm}", tags=["shape", "multi"], entry=f"f{perm[-1]}"))
+    # functions sharing one signature (type entries may be shared; function, type and export indices must still line up), every function as entry
+    same = ["export function s0(int a, int b) -> int { return a + b; }", "export function s1(int a, int b) -> int { return a * b; }",
+            "export function s2(int a, int b) -> int { return a - b - K0; }", "export function t0(float a) -> float { return a * a; }",
+            "export function t1(float a) -> float { return a + a; }", "export function s3(int a) -> int { return a * K1; }"]
+    combos = [(0, 1), (1, 0), (0, 1, 2), (3, 4), (0, 3, 1, 4), (5, 0, 1), (3, 0, 4, 1, 2), (0, 5, 1, 3)]
+    for combo in combos:
+        src = "\n".join(same[i] for i in combo)
+        for i in combo:
+            nm = same[i].split("function ")[1].split("(")[0]
+            out.append(dict(src=src, name=f"same-signature functions {combo} entry {nm}", tags=["shape", "multi", "same-signature"], entry=nm))
     out.append(dict(src="export function f(int a) -> int { return a; }\nfunction hidden(int a) -> int { return a + 1; }", name="non-exported function beside an exported one", tags=["shape", "multi"]))
     out.append(dict(src="export function a_rather_long_function_name_that_needs_more_than_one_hundred_and_twenty_seven_bytes_for_its_length_prefix_0123456789_0123456789_01234(int a) -> int { return a; }",
                     name="long export name", tags=["shape"], entry="a_rather_long_function_name_that_needs_more_than_one_hundred_and_twenty_seven_bytes_for_its_length_prefix_0123456789_0123456789_01234"))
